@@ -83,6 +83,7 @@ fn blocked(o: &SObs) -> Vec<(usize, usize, String)> {
 
 pub fn body(sc: SScenario, obs: Arc<Mutex<SObs>>) {
     ctl::window(false);
+    ctl::spurious(true); // waits may return unnotified (std permits it): a 1-cost deviation
     let srv = start_server();
     ctl::settle();
     let mut hs = Vec::new();
